@@ -145,9 +145,23 @@ func (sc Scenario) driverLine(sched []string) string {
 // the real code
 
 type world struct {
-	res  string
-	coll *resource.Collection
-	val  *resource.Value
+	res   string
+	coll  *resource.Collection
+	val   *resource.Value
+	maxID int // contents() looks at ids 0..maxID-1 (0 = 9)
+}
+
+// get is Get of one id (Value: id 0)
+func (w *world) get(id int) (int64, bool) {
+	if w.res == "value" {
+		return msgVal(w.val.Get())
+	}
+	m, ok := w.coll.Get(idName(id))
+	if !ok {
+		return 0, false
+	}
+	v, _ := msgVal(m)
+	return v, true
 }
 
 func idName(id int) string { return "i" + strconv.Itoa(id) }
@@ -216,7 +230,11 @@ func (w *world) contents() map[string]int64 {
 		}
 		return res
 	}
-	for id := 0; id < 9; id++ {
+	n := w.maxID
+	if n == 0 {
+		n = 9
+	}
+	for id := 0; id < n; id++ {
 		if m, ok := w.coll.Get(idName(id)); ok {
 			v, _ := msgVal(m)
 			res[strconv.Itoa(id)] = v
@@ -354,6 +372,9 @@ type Outcome struct {
 	Concurrent bool // a commit happened while an earlier commit's publication was still in flight
 	MayBeStale bool // unhooked run with several writers
 	DupAtSub   bool // a lossy seeded subscriber registered while a committed change was still to be published
+	// a write committed while a Delete had committed but not yet handed its REMOVE to every listener: Delete
+	// publishes while holding the write lock, so this must be impossible (the lock probe must report "blocked")
+	InDeleteWindow bool
 }
 
 func (o *Outcome) finish(w *world, sc Scenario, cancel context.CancelFunc) {
@@ -505,6 +526,11 @@ func runHooked(ctl *k4.Controller, sc Scenario, prefix []string, choose chooser)
 		if wasStart {
 			if len(flight) > 0 && (inFlight || lastErr[t] == nil) {
 				out.Concurrent = true // this commit overlaps an unfinished publication
+				for _, x := range flight {
+					if sc.Writers[x][curOp[x]].K == "d" {
+						out.InDeleteWindow = true
+					}
+				}
 			}
 			if inFlight && th.Point == ptListener {
 				snapshot[t] = append([]int{}, regOrder...) // Delete: the listener copy is taken in the commit step
@@ -599,6 +625,14 @@ func runHooked(ctl *k4.Controller, sc Scenario, prefix []string, choose chooser)
 			for _, e := range enabled {
 				if e == c {
 					pick = c
+				}
+			}
+			// a recorded commit at a point where the lock should make it wait is re-executed as the lock probe it came from
+			if pick == "" && c[0] == 'c' {
+				for _, e := range enabled {
+					if e == "b"+c[1:] {
+						pick = e
+					}
 				}
 			}
 		}
@@ -751,6 +785,8 @@ func judge(sc Scenario, o *Outcome, mode string) *verdict {
 			class := "serial-publications"
 			if mode == "stress" {
 				class = "stale-view"
+			} else if o.InDeleteWindow {
+				class = "write-committed-during-delete-publication"
 			} else if o.Concurrent {
 				class = "overlapping-writes-reordered"
 			} else if o.DupAtSub && !c.spec.BP && gok && !wok {
@@ -853,6 +889,25 @@ func genScenario(rng *rand.Rand, maxWriters int) Scenario {
 func witnessStale(res string, bp bool) Scenario {
 	return Scenario{Res: res, Init: map[string]int64{}, Writers: [][]WOp{{{K: "s", ID: 0, V: 1}}, {{K: "s", ID: 0, V: 2}}},
 		Subs: []SubSpec{{BP: bp}}, Sched: []string{"s0", "c0", "c1", "n1", "d1", "n0", "d0"}}
+}
+
+// deleteWindowWitnesses: a subscriber registered first; writer 0 deletes id 0 and is parked inside its publication
+// (REMOVE not yet handed to the listener); writer 1 attempts a write of the same id there (lock probe `b1`): it must
+// wait for the REMOVE to be out. Every subscriber option, the second write creating / compare-and-creating, one or
+// two subscribers. If the probe does not block the rest of the prefix publishes the later write first.
+func deleteWindowWitnesses() []Scenario {
+	var out []Scenario
+	for _, sub := range []SubSpec{{BP: true}, {BP: false}, {BP: true, UO: true}, {BP: false, UO: true}} {
+		for _, second := range [][]WOp{{{K: "s", ID: 0, V: 4}}, {{K: "a", ID: 0, V: 2}}, {{K: "s", ID: 0, V: 4}, {K: "a", ID: 0, V: 1}}} {
+			out = append(out,
+				Scenario{Res: "coll", Init: map[string]int64{"0": 1}, Writers: [][]WOp{{{K: "d", ID: 0}}, second},
+					Subs: []SubSpec{sub}, Sched: []string{"s0", "c0", "b1", "n1", "d1", "d0"}},
+				Scenario{Res: "coll", Init: map[string]int64{"0": 1, "1": 2}, Writers: [][]WOp{{{K: "s", ID: 1, V: 3}, {K: "d", ID: 0}}, second},
+					Subs: []SubSpec{sub, {BP: true}}, Sched: []string{"s0", "s1", "c0", "n0", "d0", "d0", "c0", "d0", "b1", "n1", "d1", "d1", "d0"}},
+			)
+		}
+	}
+	return out
 }
 
 // exploreAll enumerates every schedule of sc (including split subscribes and blocked-commit probes).
@@ -997,6 +1052,7 @@ func main() {
 		os.Exit(replay(f))
 	}
 	res := lib.NewResult("C03", f)
+	tStart := time.Now()
 	rng := lib.NewRand(f.Seed)
 	ctl := k4.New(ptUpdSend, ptValSend, ptListener, ptCollLis, ptValLis)
 	tie := res.Tie("k4-pubsub-schedules", "K4",
@@ -1012,6 +1068,10 @@ func main() {
 			sc := witnessStale(resn, bp)
 			record(sc, runHooked(ctl, sc, sc.Sched, nil))
 		}
+	}
+	// a write attempted inside the publication of a Delete (smallest inputs of that family)
+	for _, sc := range deleteWindowWitnesses() {
+		record(sc, runHooked(ctl, sc, sc.Sched, nil))
 	}
 	// all schedules of small scenarios
 	small := []Scenario{
@@ -1084,7 +1144,8 @@ func main() {
 		}
 	}
 
-	// subscriber churn: monitor only (the model has no listener removal)
+	res.Extra["wall_k4"] = time.Since(tStart).Seconds()
+	// subscriber churn (the model follows cancel / dead listener / collect)
 	{
 		ctl := k4.New(ptUpdSend, ptValSend, ptListener, ptCollLis, ptValLis)
 		cm := res.Monitor("converges-churn-hooked",
@@ -1152,10 +1213,20 @@ func main() {
 			}
 		}
 	}
+	tm := func(name string, t0 time.Time) { res.Extra["wall_"+name] = time.Since(t0).Seconds() }
+	t0 := time.Now()
 	slowMonitor(f, res, rng)
+	tm("slow", t0)
+	t0 = time.Now()
 	masksMonitor(f, res, rng)
+	tm("masks", t0)
+	t0 = time.Now()
 	dupMonitor(f, res)
+	tm("dup", t0)
+	tablesTie(f, res)
+	t0 = time.Now()
 	stress(f, res, rng)
+	tm("stress", t0)
 	if err := res.Write(f.Out); err != nil {
 		lib.Fatal(err)
 	}
@@ -1256,20 +1327,31 @@ func replay(f lib.Flags) int {
 		Mode string `json:"mode"`
 		Scenario
 	}
-	if err := json.Unmarshal(raw, &in); err != nil || (len(in.Writers) == 0 && in.Mode != "lossy-slow" && in.Mode != "masks" && in.Mode != "lossy-seed-dup") {
+	if err := json.Unmarshal(raw, &in); err != nil || (len(in.Writers) == 0 && in.Mode != "lossy-slow" && in.Mode != "masks" && in.Mode != "lossy-seed-dup" && in.Mode != "include-table" && in.Mode != "merge-table") {
 		fmt.Println("replay: no concrete input in file (", rp.Kind, ")")
 		return 2
+	}
+	if in.Mode == "include-table" || in.Mode == "merge-table" {
+		// the tables are small: the whole enumeration is re-run
+		r := lib.NewResult("C03", f)
+		tablesTie(f, r)
+		for _, m := range r.Monitors {
+			for _, v := range m.Violations {
+				fmt.Printf("STILL FAILS %s: %s (expected %s, observed %s)\n", v.Signature, v.What, v.Expected, v.Observed)
+				return 1
+			}
+		}
+		fmt.Println("replay: the include / merge tables satisfy their view specifications now")
+		return 0
 	}
 	if in.Mode == "lossy-slow" {
 		var ss SlowScenario
 		if err := json.Unmarshal(raw, &ss); err != nil {
 			lib.Fatal(err)
 		}
-		if ss.Init == nil {
-			ss.Init = map[string]int64{}
-		}
+		ss = ss.expand()
 		r := runSlow(ss)
-		fmt.Printf("replay lossy slow consumer %s -> view %s, store %s, events %s\n", ss.key(), showView(r.view), showView(r.contents), strings.Join(r.events, ";"))
+		fmt.Printf("replay lossy slow consumer %s -> view %s, store %s, events %s\n", ss.key(), clip(showView(r.view)), clip(showView(r.contents)), clip(strings.Join(r.events, ";")))
 		if v := judgeSlow(ss, r); v != nil {
 			fmt.Printf("STILL FAILS %s: %s (expected %s, observed %s)\n", v.sig, v.what, v.expected, v.observed)
 			return 1
